@@ -14,6 +14,7 @@
 
 #include <algorithm>
 
+#include <chrono>
 #include <cstdio>
 #include <cstdlib>
 #include <fstream>
@@ -88,7 +89,12 @@ static int lifecycle(long iterations, unsigned long seed) {
         std::thread warm([] {});
         warm.join();
     }
+    // the warm-up thread (and a sanitizer helper that may still be winding down) can linger for a moment
     int baseThreads = threadCount();
+    for (int k = 0; k < 20 && baseThreads > 1; ++k) {
+        std::this_thread::sleep_for(std::chrono::milliseconds(10));
+        baseThreads = std::min(baseThreads, threadCount());
+    }
     long violations = 0;
     unsigned long x = seed * 2654435761ul + 12345;
     std::streambuf* old = std::cout.rdbuf();
@@ -157,7 +163,7 @@ static int lifecycle(long iterations, unsigned long seed) {
             violations++;
             break;
         }
-        if (threads != baseThreads) {
+        if (threads > baseThreads) {   // a leak is a thread too many (fewer: a helper thread of the runtime ended)
             std::cout.rdbuf(old);
             emitViolation("gc:thread-leak:process:" + progs[pi].first,
                           "process has " + std::to_string(threads) + " threads, had " +
